@@ -140,6 +140,11 @@ def run_case(case):
         # the implementation's 3-D marginal_cdf (nested nquad over two infinite ranges) takes hours: 2-D only
         mc = None if case.get("no_marginal_cdf") else np.asarray(model.marginal_cdf(np.array(xq), dim), dtype=float)
         neval += 2
+        # list input (array_like) gives the same numbers
+        mpl = np.asarray(model.marginal_pdf([float(v) for v in xq[:1]], dim), dtype=float)
+        neval += 1
+        if mpl.shape != (1,) or not np.isclose(mpl[0], mp[0], rtol=1e-9, atol=0):
+            bad("marginal_pdf_list_input", {"dim": dim, "list": mpl, "array": mp[:1]})
         for j, xv in enumerate(xq):
             a, b = refquad.integrate(model.pdf, edges, k=kk, fixed={dim: xv})
             if abs(a - b) > 1e-6 * max(1.0, abs(b)):
@@ -161,6 +166,10 @@ def run_case(case):
         np.random.seed(case_seed(case, case.get("run_seed", 0)))
         xi = np.asarray(model.marginal_icdf(ps, dim), dtype=float)
         neval += 1
+        if cond_on[dim] is None:
+            xl = np.asarray(model.marginal_icdf(ps.tolist(), dim), dtype=float)
+            if not np.array_equal(xl, xi):
+                bad("marginal_icdf_list_input", {"dim": dim, "list": xl, "array": xi})
         if cond_on[dim] is None:
             ex = np.asarray(zoo.make(fams[dim], zoo.MID[fams[dim]]).icdf(ps), dtype=float)
             if not np.allclose(xi, ex, rtol=1e-12):
